@@ -21,6 +21,7 @@ type specEnv struct {
 	results []Val
 	pkg     *types.Package // package for resolving constants / types (defaults to e.pkg)
 	inSpec  bool           // inside a spec function body: heap reads go through formals
+	fvs     map[string]Val // captured variables of a closure: name -> address of its cell (read in env.st)
 }
 
 type specSig struct {
@@ -259,6 +260,9 @@ func (env *specEnv) asIdx(v Val) string {
 func (env *specEnv) ident(name string) Val {
 	if v, ok := env.vars[name]; ok {
 		return v
+	}
+	if p, ok := env.fvs[name]; ok {
+		return env.withState(env.st, func() Val { return env.e.deref(p) })
 	}
 	if name == "nil" {
 		return Val{T: nil, L: []string{"0"}}
@@ -720,6 +724,14 @@ func (env *specEnv) call(n *ECall) Val {
 		}
 		t := env.resolveType(s.V)
 		return Val{T: tBool, L: []string{seq(v.L[0], e.typeTag(t))}}
+	case "apply":
+		// apply(f, args...): the result of calling the pure function value f
+		f := env.eval(n.Args[0])
+		var as []Val
+		for _, a := range n.Args[1:] {
+			as = append(as, env.eval(a))
+		}
+		return e.applyTerm(f, as, env)
 	case "has":
 		// has(m, k): key k is present in map m
 		m := env.eval(n.Args[0])
